@@ -174,6 +174,8 @@ def _run_side(model, o):
     kw = dict(min_iter=o['min_iter'], max_iter=o['max_iter'], tol=o['tol'], failures=o['failures'], errors=o['errors'])
     if o['offset']:
         kw['offset'] = o['offset']
+    for k in o.get('omit', ()):
+        kw.pop(k, None)          # left out: each back-end falls back on its own default, and the defaults are the same
     with warnings.catch_warnings():
         warnings.simplefilter('ignore')
         try:
@@ -466,6 +468,7 @@ def run_shard(ctx):
             ctx.count('programs')
         exact_tolerance(ctx, rng, workdir)
         huge_guesses(ctx, rng, workdir)
+        default_options(ctx, rng, workdir)
         # hand-written corner programs
         V, N, B, E, P, C = gen.Var, gen.Num, gen.Bin, gen.Eq, gen.Program, gen.Call
         corner = [
@@ -497,6 +500,23 @@ def exact_tolerance(ctx, rng, workdir):
                  'options': dict(entry='solve_t', t=1, min_iter=0, max_iter=it, tol=tol, failures='ignore', errors='raise', offset=0)}
         ctx.evaluation((script, d, tol, it), nontrivial=True)
         one_program(ctx, prog, rng, workdir, f'tol{ctx.shard}', has_literals=False, fixed=fixed)
+
+
+def default_options(ctx, rng, workdir):
+    """Options left out fall back on each back-end's own defaults - which are the same: an oscillation that never settles (exact in
+    binary fractions) runs into the default max_iter, a slow contraction into the default tol, with every subset of options omitted."""
+    V, B, E, P = gen.Var, gen.Bin, gen.Eq, gen.Program
+    progs = [(P([E(V('Y'), B('-', V('d', 'param'), V('Y')))]), {'Y': [1.0, 1.0, 1.0], 'd': [0.5, 0.5, 0.5]}),                      # 1, -0.5, 1, ... for ever
+             (P([E(V('Y'), B('+', B('*', V('c', 'param'), V('Y')), V('d', 'param')))]), {'Y': [0.0] * 3, 'c': [0.96875] * 3, 'd': [1.0] * 3})]   # needs > 100 passes for 1e-10
+    for k, (prog, data) in enumerate(progs):
+        script = gen.render_program(prog)
+        for omit in (['max_iter'], ['tol'], ['max_iter', 'tol'], ['max_iter', 'tol', 'min_iter', 'failures', 'errors'], ['min_iter'], ['errors', 'failures']):
+            for entry in ('solve_t', 'solve'):
+                fixed = {'exact': k == 0, 'data': data,
+                         'options': dict(entry=entry, t=1, min_iter=0, max_iter=100, tol=1e-10, failures='raise' if 'failures' in omit else 'ignore', errors='raise', offset=0, omit=omit)}
+                ctx.evaluation((script, tuple(omit), entry), nontrivial=True)
+                ctx.count('runs_on_default_options')
+                one_program(ctx, prog, rng, workdir, f'dflt{ctx.shard}', has_literals=False, fixed=fixed)
 
 
 def huge_guesses(ctx, rng, workdir):
